@@ -1,0 +1,5 @@
+//go:build !verif
+
+package disk
+
+func reportedFree(_ string, free uint64) uint64 { return free }
